@@ -298,3 +298,38 @@ Theorem whole_run_status_with_renderer : forall (A : Type) sty c o x sols simple
   exists s, l_end (run_cmdline true (report_ok c o x sols simple) quiet debug io rs ls h) = Status s /\ (0 <= s <= 255)%Z.
 Proof. exact @line_status_rendered. Qed.
 Print Assumptions whole_run_status_with_renderer.
+
+(* ---- the rendered forms for the outputs clikit itself builds (Proofs/RunTraceClikitLemmas.v): "clikit_output o" - an
+   ordinary output over a plain or ANSI formatter whose style set contains DefaultStyleSet - is the ONLY hypothesis on the
+   output: no premise on the style table (C20 discharges it) and none on ESC bytes in the texts. *)
+From Clikit Require Import Proofs.TraceEscLemmas Proofs.RunTraceClikitLemmas.
+Theorem renderer_returns_on_clikit_outputs : forall c o x sols simple, clikit_output o -> report_ok c o x sols simple = true.
+Proof. exact report_ok_clikit. Qed.
+Print Assumptions renderer_returns_on_clikit_outputs.
+Theorem exception_reported_on_clikit_outputs : forall c o x sols debug ls h e calls,
+  handle debug ls h = (inr e, calls) -> e_keyboard e = false -> clikit_output o ->
+  run true debug (report_ok c o x sols (e_clikit e)) ls h
+  = {| r_end := Status 1; r_handler_calls := calls; r_reported := true; r_simple := e_clikit e |}.
+Proof. exact run_exception_clikit. Qed.
+Print Assumptions exception_reported_on_clikit_outputs.
+Theorem run_status_on_clikit_outputs : forall c o x sols simple debug ls h, clikit_output o ->
+  exists s, r_end (run true debug (report_ok c o x sols simple) ls h) = Status s /\ (0 <= s <= 255)%Z.
+Proof. exact run_status_clikit. Qed.
+Print Assumptions run_status_on_clikit_outputs.
+Theorem nothing_escapes_on_clikit_outputs : forall c o x sols simple debug ls h, clikit_output o ->
+  forall e, r_end (run true debug (report_ok c o x sols simple) ls h) <> Escaped e.
+Proof. exact run_never_escapes_clikit. Qed.
+Print Assumptions nothing_escapes_on_clikit_outputs.
+Theorem report_printed_iff_exception_on_clikit_outputs : forall c o x sols simple debug ls h, clikit_output o ->
+  (r_reported (run true debug (report_ok c o x sols simple) ls h) = true
+   <-> exists e calls, handle debug ls h = (inr e, calls) /\ e_keyboard e = false).
+Proof. exact reported_iff_exception_clikit. Qed.
+Print Assumptions report_printed_iff_exception_on_clikit_outputs.
+Theorem whole_run_status_on_clikit_outputs : forall (A : Type) c o x sols simple quiet debug io (rs : A + exn) ls h,
+  clikit_output o ->
+  exists s, l_end (run_cmdline true (report_ok c o x sols simple) quiet debug io rs ls h) = Status s /\ (0 <= s <= 255)%Z.
+Proof. exact @line_status_clikit. Qed.
+Print Assumptions whole_run_status_on_clikit_outputs.
+(* the hypothesis is met: the plain and the two ANSI formatters over DefaultStyleSet, on an ordinary output *)
+Example clikit_output_exists : forall o k, k <> FNull -> o_sec o = false -> o_fmt o = default_formatter k -> clikit_output o.
+Proof. intros o k Hk Hs Hf. split; [exact Hs|]. rewrite Hf. now apply default_formatters_are_clikit. Qed.
